@@ -347,14 +347,13 @@ func runC01R7(c *Ctx) { runC01R7Named(c, "R7-store-validation") }
 func runC01R7Named(c *Ctx, rule string) {
 	validate := c.Fn(rule, "pkg/encryption.Validate")
 	checkSig := c.Fn(rule, "pkg/encryption.checkSignature")
-	checkHmac := c.Fn(rule, "pkg/encryption.checkHmac")
 	cookieSig := c.Fn(rule, "pkg/encryption.cookieSignature")
 	load := c.Fn(rule, "(*pkg/sessions/cookie.SessionStore).Load")
 	decodeSS := c.Fn(rule, "pkg/apis/sessions.DecodeSessionState")
 	dtfr := c.Fn(rule, "pkg/sessions/persistence.decodeTicketFromRequest")
 	decodeTicket := c.Fn(rule, "pkg/sessions/persistence.decodeTicket")
 	hmacEqual := c.StdFunc(rule, "crypto/hmac.Equal")
-	if validate == nil || checkSig == nil || checkHmac == nil || cookieSig == nil || load == nil || decodeSS == nil || dtfr == nil || decodeTicket == nil || hmacEqual == nil {
+	if validate == nil || checkSig == nil || cookieSig == nil || load == nil || decodeSS == nil || dtfr == nil || decodeTicket == nil || hmacEqual == nil {
 		return
 	}
 	validated := func(p *walk.Path) (walk.Call, bool) {
@@ -406,10 +405,9 @@ func runC01R7Named(c *Ctx, rule string) {
 func runValidateChain(c *Ctx, rule string) {
 	validate := c.Fn(rule, "pkg/encryption.Validate")
 	checkSig := c.Fn(rule, "pkg/encryption.checkSignature")
-	checkHmac := c.Fn(rule, "pkg/encryption.checkHmac")
 	cookieSig := c.Fn(rule, "pkg/encryption.cookieSignature")
 	hmacEqual := c.StdFunc(rule, "crypto/hmac.Equal")
-	if validate == nil || checkSig == nil || checkHmac == nil || cookieSig == nil || hmacEqual == nil {
+	if validate == nil || checkSig == nil || cookieSig == nil || hmacEqual == nil {
 		return
 	}
 	// Validate: ok ⇒ checkSignature
@@ -428,7 +426,21 @@ func runValidateChain(c *Ctx, rule string) {
 		}
 		c.ok(rule, key, p.Exit, "checkSignature(...)==true")
 	})
-	// checkSignature: true ⇒ checkHmac(signature, cookieSignature(...)#0)
+	checkSigCompare(c, rule)
+}
+
+// checkSigCompare: checkSignature answers true only as hmac.Equal(decode(presented signature),
+// decode(cookieSignature(...)#0)) with both base64 decodings and the MAC computation error-free — the complete,
+// constant-time comparison. The small comparing helper (checkHmac today) is not an anchor: the walker inlines it
+// when it exists and the rule reads the same whether or not a refactoring has folded it into checkSignature
+// (C01.R7, C02.R5, C03.R2).
+func checkSigCompare(c *Ctx, rule string) {
+	checkSig := c.Fn(rule, "pkg/encryption.checkSignature")
+	cookieSig := c.Fn(rule, "pkg/encryption.cookieSignature")
+	hmacEqual := c.StdFunc(rule, "crypto/hmac.Equal")
+	if checkSig == nil || cookieSig == nil || hmacEqual == nil {
+		return
+	}
 	c.Walk(rule, checkSig, func(p *walk.Path) {
 		rv, ok := p.ReturnDV(0)
 		if !ok {
@@ -437,39 +449,50 @@ func runValidateChain(c *Ctx, rule string) {
 		if b, k := p.Truth(rv, p.End()); k && !b {
 			return
 		}
+		at := p.End()
 		key := "true-return|" + fnKey(checkSig)
-		hc, ok := extractOfCall(p, rv, 0)
-		if !ok || hc.C.StaticCallee() != checkHmac {
-			c.bad(rule, key, p.Exit, "checkSignature may return true other than as checkHmac's result", p, p.End())
+		eq, ok := extractOfCall(p, rv, 0)
+		if !ok || eq.C.StaticCallee() != hmacEqual {
+			// the verdict may have been tested rather than returned: if hmac.Equal(...) { return true }
+			for _, cl := range p.Find(walk.Static(hmacEqual), at) {
+				if b, k := p.ResultTruth(cl.DV(), -1, at); k && b {
+					eq, ok = cl, true
+				}
+			}
+			if !ok || eq.C.StaticCallee() != hmacEqual {
+				c.bad(rule, key, p.Exit, "checkSignature may return true other than as hmac.Equal's verdict", p, at)
+				return
+			}
+		}
+		decoded := func(arg walk.DV) (walk.Call, bool) {
+			dc, ok := extractOfCall(p, arg, 0)
+			if !ok || dc.C.StaticCallee() == nil || dc.C.StaticCallee().Name() != "DecodeString" {
+				return walk.Call{}, false
+			}
+			if n, k := p.ResultNil(dc.DV(), 1, at); !(k && n) {
+				return walk.Call{}, false
+			}
+			return dc, true
+		}
+		d0, ok0 := decoded(p.Arg(eq, 0))
+		d1, ok1 := decoded(p.Arg(eq, 1))
+		if !ok0 || !ok1 {
+			c.bad(rule, key, p.Exit, "the signatures compared are not the complete, error-free base64 decodings of two strings (a prefix, trimmed or raw compare accepts truncated signatures)", p, at)
 			return
 		}
-		sc, ok := extractOfCall(p, p.Arg(hc, 1), 0)
-		sigParam := p.Resolve(p.Arg(hc, 0)).V == checkSig.Params[0]
-		if !ok || sc.C.StaticCallee() != cookieSig || !sigParam {
-			c.bad(rule, key, p.Exit, "checkHmac does not compare the presented signature with cookieSignature's result", p, p.End())
-			return
+		isPresented := func(d walk.Call) bool { return p.Resolve(p.Arg(d, 1)).V == ssa.Value(checkSig.Params[0]) }
+		isExpected := func(d walk.Call) bool {
+			sc, ok := extractOfCall(p, p.Arg(d, 1), 0)
+			if !ok || sc.C.StaticCallee() != cookieSig {
+				return false
+			}
+			n, k := p.ResultNil(sc.DV(), 1, at)
+			return k && n
 		}
-		if n, k := p.ResultNil(sc.DV(), 1, p.End()); !(k && n) {
-			c.bad(rule, key, p.Exit, "cookieSignature's error is not known to be nil", p, p.End())
-			return
+		if (isPresented(d0) && isExpected(d1)) || (isPresented(d1) && isExpected(d0)) {
+			c.ok(rule, key, p.Exit, "hmac.Equal(decode(signature), decode(cookieSignature(...))) with every step error-free")
+		} else {
+			c.bad(rule, key, p.Exit, "what is compared is not the presented signature against cookieSignature's error-free result", p, at)
 		}
-		c.ok(rule, key, p.Exit, "checkHmac(signature, cookieSignature(...))")
-	})
-	// checkHmac: true ⇒ hmac.Equal
-	c.Walk(rule, checkHmac, func(p *walk.Path) {
-		rv, ok := p.ReturnDV(0)
-		if !ok {
-			return
-		}
-		if b, k := p.Truth(rv, p.End()); k && !b {
-			return
-		}
-		key := "true-return|" + fnKey(checkHmac)
-		ec, ok := extractOfCall(p, rv, 0)
-		if !ok || ec.C.StaticCallee() != hmacEqual {
-			c.bad(rule, key, p.Exit, "checkHmac may return true other than as hmac.Equal's result", p, p.End())
-			return
-		}
-		c.ok(rule, key, p.Exit, "hmac.Equal(decoded input, decoded expected)")
 	})
 }
